@@ -73,7 +73,10 @@ def replay(c, variant=""):
     if not _RULES:
         _RULES.update({(n, o, 0): r for n, o, r in rewrite.rules(pos=False)})
         _RULES.update({(n, o, 1): r for n, o, r in rewrite.rules(pos=True)})
-    flavour = common.pick(json.dumps(c["inp"], sort_keys=True) + str(c["path"]), 2)
+    key = json.dumps(c["inp"], sort_keys=True) + str(c["path"])
+    if common.pick(key, 60) == 0:
+        common.process_noise(common.pick(key, 997))
+    flavour = common.pick(key, 2)
     rule = _RULES[(c["rule"], c["opt"], flavour)]
     tree = build_json(c["inp"])
     if variant == "floatexp" and not float_exponents(tree):
